@@ -197,6 +197,14 @@ class _Raise(Exception):
         self.cls = cls if what is None else "%s:%s" % (cls, what)
 
 
+def _in(x, coll):
+    """membership as the slot format means it (a list value is simply not a member of a table of strings)"""
+    try:
+        return x in coll
+    except TypeError:
+        return False
+
+
 def _value_ok(arg, value, check_ext, loaded):
     if "values" not in arg and "extension_values" not in arg:
         return True
@@ -216,7 +224,7 @@ def _complete(st, defs, variable, atype=None, avalue=None):
     required = sum(1 for d in defs if d.get("required", False))
     cur = st["curarg"]
     free = cur is None or "extra_arg" not in cur or (
-        "valid_for" in cur["extra_arg"] and bool(atype) and atype in cur["extra_arg"]["type"] and avalue not in cur["extra_arg"]["valid_for"])
+        "valid_for" in cur["extra_arg"] and bool(atype) and atype in cur["extra_arg"]["type"] and not _in(avalue, cur["extra_arg"]["valid_for"]))
     return bool(free and st["filled"] == required)
 
 
@@ -242,7 +250,7 @@ def _ref_step(st, defs, variable, arguments, extra, atype, avalue, loaded, check
     cur = st["curarg"]
     if cur is not None and "extra_arg" in cur:
         x = cur["extra_arg"]
-        if atype in x["type"] and ("values" not in x or avalue in x["values"]):
+        if atype in x["type"] and ("values" not in x or _in(avalue, x["values"])):
             if add:
                 extra[cur["name"]] = avalue
             st["curarg"] = None
@@ -471,24 +479,47 @@ def _arg_eval(ctx, R):
     interp = H.interp
 
     def fresh(defname):
-        return H.fresh(sn, DEFS[defname], defname in VARIABLE, defname)
+        return H.fresh(sn, DEFS_ALL[defname], defname in VARIABLE, defname)
 
     problems = []
     n = 0
+    # the repository's own definitions that restrict a tag's parameter to some spellings of the tag (valid_for): each such tag followed by
+    # a parameter of every shape its type admits, then the required arguments
+    own_defs = {}
+    own_seqs = []
+    for cname_, e_ in sorted(R.concrete().items()):
+        ad_ = e_.get("args_definition") or []
+        for d_ in ad_:
+            x_ = d_.get("extra_arg") if isinstance(d_, dict) else None
+            if not (isinstance(x_, dict) and x_.get("valid_for")):
+                continue
+            key_ = "own:" + e_["name"]
+            own_defs[key_] = ad_
+            req_ = [(S, '"r%d"' % i_) for i_, r_ in enumerate(ad_) if r_.get("required") and ("string" in r_["type"] or "stringlist" in r_["type"])]
+            if len(req_) != sum(1 for r_ in ad_ if r_.get("required")):
+                continue
+            tag_ = sorted(x_["valid_for"])[0]
+            pv_ = sorted(x_["values"])[0] if x_.get("values") else '"p"'
+            for shape_ in ((S, pv_), (L, [pv_, '"q"'])):
+                if shape_[0] in x_["type"] or (shape_[0] == S and x_["type"] == "string"):
+                    own_seqs.append((key_, [(T, tag_), shape_] + req_))
+                    own_seqs.append((key_, [(T, tag_.upper()), shape_] + req_))
+    DEFS_ALL = dict(DEFS)
+    DEFS_ALL.update(own_defs)
     old_heap = fd.State.heap
     fd.State.heap = True
     try:
-        for entry in SEQUENCES:
+        for entry in list(SEQUENCES) + own_seqs:
             defname, seq = entry[0], entry[1]
             add = entry[2] if len(entry) > 2 else True
             if not add and "add" not in cna.params:
                 continue
             for loaded in LOADED:
-                uses_ext = any("extension" in d or "extension_values" in d for d in DEFS[defname])
+                uses_ext = any("extension" in d or "extension_values" in d for d in DEFS_ALL[defname])
                 if not uses_ext and loaded is not LOADED[0]:
                     continue
                 for check_ext in ((True, False) if uses_ext and loaded is LOADED[0] else (True,)):
-                    want = reference(DEFS[defname], defname in VARIABLE, seq, loaded, check_ext, add)
+                    want = reference(DEFS_ALL[defname], defname in VARIABLE, seq, loaded, check_ext, add)
                     env = fresh(defname)
                     answers = []
                     for atype, avalue in seq:
@@ -766,8 +797,10 @@ def reassign_eval(ctx, R):
                 continue
             try:
                 out[c.name] = _reassign_one(ctx, R, c, f, ent["args_definition"], cna, isc)
-            except (fd.TooManyPaths, RecursionError):
-                out[c.name] = None
+            except AnalysisError:
+                raise
+            except Exception:
+                out[c.name] = None  # the evaluation cannot follow this shape: the structural rule decides
     finally:
         fd.State.heap = old_heap
     return out
@@ -782,13 +815,14 @@ def _reassign_one(ctx, R, c, f, defs, cna, isc):
     if any(set(d["type"]) - {"string", "stringlist", "number"} for d in positional):
         return None
     tags = []
+    first = lambda c_: sorted(c_)[0]  # (the tables may be lists, tuples or sets)
     for d in defs:
         if "tag" in d["type"] and d.get("values"):
-            tags.append([(T, d["values"][0])])
+            tags.append([(T, first(d["values"]))])
             if "extra_arg" in d:
                 x = d["extra_arg"]
-                tag = (x.get("valid_for") or d["values"])[0]
-                val = (x.get("values") or ['"p"'])[0] if "string" in x["type"] else "1"
+                tag = first(x.get("valid_for") or d["values"])
+                val = first(x.get("values") or ['"p"']) if "string" in x["type"] else "1"
                 tags[-1] = [(T, tag), (S if "string" in x["type"] else N, val)]
     values = ['"v1"', ['"l1"', '"l2"'], '"v3"', '"v4"']
     seqs = []
